@@ -79,7 +79,12 @@ func props() map[string]*propInfo {
 	return m
 }
 
-const verifDir = "/verif"
+var verifDir = func() string {
+	if d, err := os.Getwd(); err == nil {
+		return d
+	}
+	return "/verif"
+}()
 
 func goEnv() []string {
 	env := os.Environ()
